@@ -333,7 +333,19 @@ func Check(sp Spec) Obs {
 	if !o.OK {
 		return o
 	}
-	return Safe(s.Check)
+	return CheckObs(s)
+}
+
+// CheckObs calls Check twice on the schema object and returns the first answer; a second answer
+// with another verdict, code or position is reported like a panic (no monitor accepts it): the
+// verdict of a schema does not change by asking again.
+func CheckObs(s *njs.Schema) Obs {
+	first := Safe(s.Check)
+	second := Safe(s.Check)
+	if first.Panic == "" && (second.Panic != "" || first.OK != second.OK || first.Code != second.Code || first.Pos != second.Pos) {
+		return Obs{Code: -1, Pos: -1, Panic: fmt.Sprintf("Check() answered %s, the second call on the same schema object answered %s", first, second)}
+	}
+	return first
 }
 
 // Doc creates a JSON document.
